@@ -516,3 +516,90 @@ func H13p_history() {
 	vrtAssert("C13.released_once", len(aq.Acked()) == 0)
 	vrtReach("C13.history_public")
 }
+
+// H13p_many: the queue at the size a session really uses (16 slots) with many requests in flight: after a
+// prelude of `pre` completed requests (so the head is not at slot 0) N requests are registered - the ring
+// grows while wrapped at 16, 32, 64, 128 and 256 entries - and are acknowledged newest first or
+// even-numbered first; nothing may be released before the oldest is acknowledged, then everything in
+// registration order with its own request and ack bytes. The step lemmas (H13_*) decide rings of 2 and 4
+// slots from an arbitrary state; this is the concrete long history the property's "hundreds of in-flight
+// entries" asks for (round-8 changes C02-15 / C12-15 / C13-15 / C20-15: re-indexing on growth that is only
+// wrong for entries stored before the head; round-7 change C13-14: a growth policy that leaves powers of
+// two above 64 slots). One payload byte per request is symbolic.
+// vrtPlainRequest: like vrtRequest, but nothing the executor has to fork on (one symbolic payload byte)
+func vrtPlainRequest(kind int, id uint16) (message.Message, byte) {
+	if kind == 2 {
+		m := message.NewSubscribeMessage()
+		m.AddTopic([]byte("t"), 1)
+		m.SetPacketID(id)
+		return m, 8
+	}
+	m := message.NewPublishMessage()
+	m.SetTopic([]byte("t"))
+	m.SetPayload([]byte{vrtByte("payload")})
+	m.SetQoS(byte(kind + 1))
+	m.SetPacketID(id)
+	return m, 3
+}
+
+func H13p_many() {
+	pres := []int{0, 3, 5, 17}
+	pre := pres[vrtChoice("completed_before", len(pres))]
+	sizes := []int{17, 33, 70, 130, 260}
+	if vrtBound("N13many", 260) < 260 {
+		sizes = sizes[:3]
+	}
+	N := sizes[vrtChoice("in_flight", len(sizes))]
+	evensFirst := vrtBool("even_numbered_first")
+	aq := newAckqueue(16)
+	id := uint16(1)
+	for i := 0; i < pre; i++ {
+		m, _ := vrtPlainRequest(0, id)
+		vrtAssert("C13.wait_ok", aq.Wait(m, nil) == nil)
+		a, _ := vrtAckFor(4, id)
+		vrtAssert("C13.ack_ok", aq.Ack(a) == nil)
+		vrtAssert("C13.released_prefix_length", len(aq.Acked()) == 1)
+		id++
+	}
+	var abs []vrtEnt
+	for i := 0; i < N; i++ {
+		kind := i % 3
+		m, typ := vrtPlainRequest(kind, id)
+		wire := vrtWire(m)
+		vrtAssert("C13.wait_ok", aq.Wait(m, nil) == nil)
+		abs = append(abs, vrtEnt{id: id, typ: typ, msg: wire})
+		id++
+	}
+	vrtAssert("C13.many_count", aq.len() == N)
+	ackOne := func(i int) {
+		typ := byte(4)
+		switch {
+		case abs[i].typ == 8:
+			typ = 9
+		case abs[i].msg[0]&6 == 4:
+			typ = 7
+		}
+		am, orig := vrtAckFor(typ, abs[i].id)
+		vrtAssert("C13.ack_ok", aq.Ack(am) == nil)
+		abs[i].state, abs[i].ack = typ, orig
+	}
+	if evensFirst {
+		for i := 0; i < N; i += 2 {
+			if i > 0 {
+				ackOne(i)
+			}
+		}
+		for i := 1; i < N; i += 2 {
+			ackOne(i)
+		}
+	} else {
+		for i := N - 1; i > 0; i-- {
+			ackOne(i)
+		}
+	}
+	vrtAssert("C13.nothing_released_before_the_oldest", len(aq.Acked()) == 0)
+	ackOne(0)
+	abs = vrtCollect(aq, abs)
+	vrtAssert("C13.many_all_released", len(abs) == 0 && aq.len() == 0)
+	vrtReach("C13.many")
+}
